@@ -32,5 +32,11 @@ RULES = [
     ("C08.bucketat", lambda c, r: lfht.rule_bucketat(c, r, "C08.bucketat")),
     ("C08.partition", lambda c, r: c09.rule_partition(c, r, "C08.partition")),
     ("C08.mmapargs", lambda c, r: lfht.rule_mmapargs(c, r, "C08.mmapargs")),
+    ("C08.addskel", lambda c, r: __import__("sa.rules.lfht2", fromlist=["x"]).rule_addskel(c, r, "C08.addskel")),
+    ("C08.entry", lambda c, r: __import__("sa.rules.lfht2", fromlist=["x"]).rule_entry(c, r, "C08.entry")),
+    ("C08.count_nodes", lambda c, r: __import__("sa.rules.lfht2", fromlist=["x"]).rule_count_nodes(c, r, "C08.count_nodes")),
+    ("C08.del", lambda c, r: __import__("sa.rules.lfht2", fromlist=["x"]).rule_del(c, r, "C08.del")),
+    ("C08.levels", lambda c, r: __import__("sa.rules.lfht2", fromlist=["x"]).rule_levels(c, r, "C08.levels")),
+    ("C08.delbucket", lambda c, r: __import__("sa.rules.lfht2", fromlist=["x"]).rule_delete_bucket(c, r, "C08.delbucket")),
 ]
 FLOORS = {}
